@@ -75,12 +75,16 @@ def gen_repo_world(t, family):
     # the second language may have a global repository of its own: a file loaded directly with it is served from
     # there when a model of the first language imports it later
     w.mm2_repo = w.two_langs and t.chance(1, 2, "second-language-has-its-own-repository")
+    w.unicode_names = t.chance(1, 4, "decomposed-unicode-in-file-names")
     for i in range(n):
         d = "" if i == 0 and not t.chance(1, 4, "main-in-sub") else t.pick(DIRS, "dir")
         if family in SP and i > 0:
             # search-path mode: imported files live next to the importer or on the search path
             d = t.pick(["", "other/", "sub/"], "sp-dir")
-        paths.append(f"{ROOT}/{d}f{i}.{'n' if w.two_langs and i % 2 == 1 else 'm'}")
+        # some file names carry a decomposed character (e + combining acute accent): import statements quote them, the
+        # text of a model is what was written - not a normalised form of it
+        uni = "e\u0301" if w.unicode_names and i % 2 == 0 and i > 0 else ""
+        paths.append(f"{ROOT}/{d}f{i}{uni}.{'n' if w.two_langs and i % 2 == 1 else 'm'}")
     for p in paths:
         w.files[p] = FileEnt(p)
         SIMFS.files[p] = ""  # so that glob truth can be computed while generating
